@@ -208,7 +208,7 @@ var stringType = reflect.TypeOf("")
 
 var newMap = Func(func(a Arguments) reflect.Value {
 	if a.NumOfArguments()%2 > 0 {
-		panic("map(): incomplete key-value pair (even number of arguments required)")
+		a.Panicf("map(): incomplete key-value pair (even number of arguments required)")
 	}
 
 	m := reflect.ValueOf(make(map[string]interface{}, a.NumOfArguments()/2))
@@ -222,7 +222,7 @@ var newMap = Func(func(a Arguments) reflect.Value {
 			a.Panicf("map(): can't use %+v as string key: %s is not convertible to string", key, key.Type())
 		}
 		key = key.Convert(stringType)
-		m.SetMapIndex(a.Get(i), a.Get(i+1))
+		m.SetMapIndex(key, a.Get(i+1))
 	}
 
 	return m
